@@ -183,8 +183,10 @@ def end_to_end(ctx: Ctx):
     async def auth(l):
         plan["cuts"] = lambda L: ()
         plan["prefix"] = b""
+        plan["t_last_pending"] = True
         try:
             await l.authenticate(tok, key)
+            plan.setdefault("settle", loop.time() - plan["t_last"])      # what authenticate() spends after the last byte of an unsegmented reply
             return True
         except Exception as e:  # noqa: BLE001 - code under test
             bad.append({"frame": "", "exc": "authenticate: " + type(e).__name__, "note": "unsegmented handshake reply"})
@@ -207,9 +209,34 @@ def end_to_end(ctx: Ctx):
             n += 1
             if l2._protocol:
                 l2._disconnect()
+        # the handshake reply with a pause longer than the client's read timeout inside it: the client asks again meanwhile, the first reply
+        # completes (in-order stream) before the second one starts and is accepted the moment its last byte is there
+        for cut in (1, 7, 8, 40, 71):
+            l3 = LAN("10.0.0.1", 6444, 7)
+            plan.update(prefix=b"", cuts=(lambda L, c=cut: (min(c, L - 1),)), gap=1, t_last_pending=True, busy_until=0.0)
+            t0 = loop.time()
+            try:
+                await l3.authenticate(tok, key)
+                exc = None
+            except Exception as e:  # noqa: BLE001
+                exc = type(e).__name__
+            t1 = loop.time()
+            n += 1
+            if exc is not None or abs(t1 - plan["t_last"] - plan["settle"]) > 1e-9:
+                bad.append({"frame": "", "exc": exc and "authenticate: " + exc, "note": f"handshake reply cut at {cut} with 2.5 s between the parts",
+                            "returned_at": t1 - t0, "last_byte_at": plan["t_last"] - t0})
+            plan["gap"] = None
+            await asyncio.sleep(6)
+            if l3._protocol:
+                l3._disconnect()
+            plan["busy_until"] = 0.0
         for k in range(ctx.pick(150, 3000)):
             f = bytes(rng.randrange(256) for _ in range(rng.choice([1, 20, 34, 60])))
+            if k % 25 == 11:
+                f = bytes(rng.randrange(256) for _ in range(rng.choice([4200, 9000])))           # a reply of several KB
             kind = k % 4
+            if kind == 0 and len(f) > 1000:
+                kind = 1                       # (thousands of one-byte segments would outlast the read timeout: not a reassembly matter)
             if kind == 0:
                 plan["cuts"] = lambda L: tuple(range(1, L))
             elif kind == 1:
@@ -230,6 +257,7 @@ def end_to_end(ctx: Ctx):
             except Exception as e:  # noqa: BLE001
                 ok, exc, r = False, type(e).__name__, None
             t1 = loop.time()
+            t_last = plan["t_last"]
             if plan["gap"] is not None:
                 # the answers to the retransmissions are still on their way: start the next exchange on a fresh connection
                 plan["gap"] = None
@@ -240,8 +268,8 @@ def end_to_end(ctx: Ctx):
                 if not await auth(l):
                     return
             n += 1
-            if not ok or abs(t1 - plan["t_last"]) > 1e-9:
-                bad.append({"frame": f.hex(), "exc": exc, "returned_at": t1 - t0, "last_byte_at": plan["t_last"] - t0, "prefix": plan["prefix"].hex(),
+            if not ok or abs(t1 - t_last) > 1e-9:
+                bad.append({"frame": f.hex()[:200], "exc": exc, "returned_at": t1 - t0, "last_byte_at": t_last - t0, "prefix": plan["prefix"].hex(),
                             "got": [x.hex() for x in r] if r else None})
                 if len(bad) > 40:
                     return
@@ -324,6 +352,14 @@ def multi_stream(ctx: Ctx):
                 plan["hs_extra"] = None
                 plan["cuts"] = cutfn(ck)
                 fs = [bytes(rng.randrange(256) for _ in range(rng.choice([1, 20, 34, 60]))) for _ in range(rng.randint(1, 3))]
+                if k % 5 == 1:
+                    fs = [fs[0]] + fs                        # the appliance reports the same frame twice (two packets, two counters): both are delivered
+                if k % 20 == 7:
+                    fs = [bytes(rng.randrange(256) for _ in range(rng.choice([250, 700, 1400]))) for _ in range(rng.choice([4, 8, 20]))]     # several KB in one stream
+                if k % 20 == 17:
+                    fs = [bytes(rng.randrange(256) for _ in range(rng.choice([4090, 6000, 20000])))]                                     # one packet of several KB
+                if sum(len(x) for x in fs) > 1000 and ck == "bytewise":
+                    plan["cuts"] = cutfn("random")           # (thousands of one-byte segments would outlast the read timeout: not a reassembly matter)
                 plan["frames"] = fs
                 sent += fs
                 got += list(await l.send(b"\xaa\x01", retries=1))
